@@ -123,6 +123,7 @@ type gen struct {
 	rangeComp   map[*ssa.Range]string
 	rangeDom0   map[*ssa.Range]string  // key set of the ranged map when the loop started
 	nilSeen  map[string][]*ssa.BasicBlock
+	staleNames []string // invariants dropped because they name a local that no longer exists
 	frameSummary bool // `modifies summary` in the contract under verification
 	volatile map[string]bool // refs of cells captured by spawned goroutines
 	volatileT map[string]types.Type // their pointer types (to settle them at wg.Wait())
